@@ -1509,3 +1509,7 @@ BOUNDED = ["walkers docx _extract_tables_from_context, odt _extract_tables, odp 
            "html / epub documents are fed as parser events through the real handlers (_HtmlTreeBuilder, _XhtmlTextExtractor), including empty cells in self-closed form"]
 
 REPLAY_UNKNOWN = True    # undecided / out-of-subset items are searched natively (replay) before being reported UNDECIDED
+# Loop-invariant obligations exist only while the function has the loop: when it is moved into a helper (which then carries them under
+# its own contract, e.g. the RTF pairing loop) or becomes a comprehension, they may disappear as long as the function still generates
+# its other obligations (postcondition / raises / bounded walker); an unrecognised loop shape is reported by a `shape#` obligation.
+LOCK_OPTIONAL_KINDS = ("inv-init", "inv-preserve")
